@@ -96,6 +96,10 @@ def witnesses():
         "C01-ordered-delimiter-merge": _differs("1. a\n\n1) b\n", width=88, semantic=False),
         "C01-closing-tag-unindented": _differs("- {% f %}\n  - i1\n  {% /f %}\n", width=88, semantic=False),
         "C01-hard-break-after-delimiter-run": _differs("a *  \nb 2*3*4\n", width=88, semantic=False),
+        "C01-shortcut-reference-before-bracket": _differs("[foo][foo](bar)\n\n[foo]: /u\n", width=88, semantic=False),
+        "C01-adjacent-emphasis-delimiters": _differs("**a**__b__ *c*_d_\n", width=88, semantic=False),
+        "C01-ordered-number-overflow": P.fmt(P.fmt("999999999. a\n999999999. b\n", width=88), width=88) != P.fmt("999999999. a\n999999999. b\n", width=88),
+        "C01-link-destination-backslash": P.fmt(P.fmt("[x](a\\\\*b)\n", width=88), width=88) != P.fmt("[x](a\\\\*b)\n", width=88),
         "C01-marko-lax-table-delimiter": _differs("a it.  | -x +\nEnds.\n", width=8, semantic=False),
         "C01-link-definition-inside-list-item": _differs("- [a]: /u\n\n- b\n", width=88, semantic=False)
         and P.fmt(P.fmt("- [a]: /u\n\n- b\n", width=88, semantic=False), width=88, semantic=False) != P.fmt("- [a]: /u\n\n- b\n", width=88, semantic=False),
